@@ -268,7 +268,7 @@ def rule_X3(ctx: Ctx) -> None:
     acc = ("np.array([list(line) for line in lines], dtype=str)", "np.array([list(line) for line in lines])")
     pg = X.assignments_to(fa.node, "pixel_grid")
     lp = [n for n in fa.node.body if isinstance(n, ast.For)]
-    ok = len(gd) == 1 and X.U(gd[0]) in acc and len(pg) == 1 and X.U(pg[0]).replace(" ", "") == "np.zeros((*ascii_grid.shape,3),dtype=np.uint8)" \
+    ok = len(gd) == 1 and X.same_expr(gd[0], *acc) and len(pg) == 1 and X.U(pg[0]).replace(" ", "") == "np.zeros((*ascii_grid.shape,3),dtype=np.uint8)" \
         and len(lp) == 1 and X.U(lp[0].iter) == "ASCII_PIXEL_PAIRINGS.items()" and any(
             isinstance(s, ast.Assign) and X.U(s.targets[0]).replace(" ", "") == "pixel_grid[ascii_grid==ascii_char]" and X.U(s.value) == "pixel_color" for s in lp[0].body)
     rets = X.returns_of(fa.node)
